@@ -21,6 +21,7 @@
 package engine
 
 import (
+	"errors"
 	"go/ast"
 	"go/token"
 	"reflect"
@@ -64,6 +65,11 @@ func (c *replacerCompiler) compile(v reflect.Value) Replacer {
 	}
 
 	switch v.Type() {
+	case dotsPtrType:
+		// "..." inside a list or a for header is handled by the
+		// replacers for those. Anywhere else it doesn't stand for
+		// anything that we can reproduce.
+		return errorReplacer{Err: errors.New(`cannot generate code for "..." outside a list of arguments, elements, fields or statements`)}
 	case goast.IdentPtrType:
 		return c.compileIdent(v)
 	case goast.StmtSliceType:
@@ -117,4 +123,14 @@ type ZeroReplacer struct{ Type reflect.Type }
 // Replace replaces with a zero value.
 func (r ZeroReplacer) Replace(data.Data, Changelog, token.Pos) (reflect.Value, error) {
 	return reflect.Zero(r.Type), nil
+}
+
+var dotsPtrType = reflect.TypeOf((*pgo.Dots)(nil))
+
+// errorReplacer fails with the given error.
+type errorReplacer struct{ Err error }
+
+// Replace reports the error.
+func (r errorReplacer) Replace(data.Data, Changelog, token.Pos) (reflect.Value, error) {
+	return reflect.Value{}, r.Err
 }
